@@ -12,6 +12,8 @@ namespace RV.Particles
 /-- storage invariant: the allocation is what `N_allocated` says and holds all live particles -/
 def Inv (c : State) : Prop := c.mem.length = c.nAlloc ∧ c.N ≤ c.nAlloc
 
+instance (c : State) : Decidable (Inv c) := inferInstanceAs (Decidable (_ ∧ _))
+
 theorem Inv.le {c : State} (h : Inv c) : c.N ≤ c.mem.length := by have := h.1; have := h.2; omega
 
 theorem abs_len {c : State} (h : Inv c) : (abs c).ps.length = c.N := by
